@@ -18,7 +18,7 @@ claim('C09', 'model_checking',
       'explicit-state BFS over call/reply/forged-reply/disconnect/timeout histories on the real bus under the system-bus default policy, judged by a pending-reply slot model and compared with the implementation\'s pending-reply list in every state',
       'Three clients (caller, callee, third party) issue calls with serials from a 2-element domain (so serials are reused), with and without NO_REPLY_EXPECTED; every client may send a method return '
       'or error with every serial to every other client; clients disconnect; the virtual clock is advanced below/above reply_timeout. A reply must be delivered iff it consumes a slot opened by a call '
-      'from its addressee to its sender with that serial; anything else earns the replier AccessDenied and reaches nobody; expiry/callee disconnect yields exactly one NoReply; the per-connection limit refuses the next call; a call written in the same loop iteration in which its callee\'s socket closes gets exactly one error and leaves no slot; a call refused by the callee\'s receive policy opens no slot; a reload changes nothing.',
+      'from its addressee to its sender with that serial; anything else earns the replier AccessDenied and reaches nobody; expiry/callee disconnect yields exactly one NoReply; the per-connection limit refuses the next call; a call written in the same loop iteration in which its callee\'s socket closes gets exactly one error and leaves no slot; a call refused by the callee\'s receive policy opens no slot; a reload changes nothing; the third party eavesdrops on method calls (its copies are modelled, its answers stay forged).',
       'Trusts the slot model. Time is the virtual clock of hook H1. More than 3 clients / 2 serials per caller and histories beyond the depth bound are not covered.',
       'DESIGN.md section 4 C09')
 
